@@ -9,7 +9,7 @@ CHECKS["C18"] = dict(cat="model_checking", ref="DESIGN.md 4/C18",
     technique=TECH)
 CHECKS["C01"] = dict(cat="model_checking", ref="DESIGN.md 4/C01",
     text="Every encode()/decode() in the server and client decoder tables (incl. diagnostic sub-classes and exception responses) is executed symbolically on arbitrary spec-conformant body bytes of a concrete shape and compared with reference layouts written from the Modbus Application Protocol v1.1b3; bit packing is proved against its arithmetic form by direct AST->z3 translation (lemma K3). z3 decides every path; bounded (list lengths per obligation), not a proof.",
-    note="Bounds: all 8/16-bit field values; register/bit/record/event list lengths as named per obligation (quick: small shapes; thorough: up to the spec maxima 125/123/121 registers, 2000/1968 bits). Reference layouts in spec/pdu.py are trusted as the reading of the spec. Known findings listed in known_findings.json are carved per class x direction.",
+    note="Bounds: all 8/16-bit field values; register/bit/record/event list lengths as named per obligation (quick: small shapes; thorough: up to the spec maxima 125/123/121 registers, 2000/1968 bits). Reference layouts in spec/pdu.py are trusted as the reading of the spec. Known findings listed in known_findings.json are carved per class x direction. alias.*: decoded list fields modified in place, same bytes decoded again (real unpack_bitstring): wire values, no shared list.",
     technique=TECH)
 CHECKS["C02"] = dict(cat="model_checking", ref="DESIGN.md 4/C02",
     text="Symbolic execution of decode(encode(m)), encode three times, encode(decode(encode(m))) and decode-twice-into-one-object for every class in the decoder tables over all field values of a concrete shape; z3 decides each path. Bounded by list length.",
@@ -17,11 +17,11 @@ CHECKS["C02"] = dict(cat="model_checking", ref="DESIGN.md 4/C02",
     technique=TECH)
 CHECKS["C03"] = dict(cat="model_checking", ref="DESIGN.md 4/C03",
     text="buildPacket and the whole receive path of all five framers are executed symbolically for every message class: the packet equals the reference ADU (MBAP / unit+PDU+CRC low byte first / ':'+upper hex+LRC+CRLF / bare PDU / '{'..'}') and a fresh framer fed the packet delivers exactly one equal message with unit/tid/pid preserved, for all unit ids, transaction ids and field values. The CRC table code and LRC are proved equal to the standards' definitions by direct AST->z3 translation (K1 step lemma + induction argument, K2).",
-    note="computeCRC appears inside framer harnesses as an uninterpreted step function folded over the data (so CONFIRMED holds for any checksum; K1 ties the real one to CRC-16/Modbus); computeLRC as its closed form (K2). PDU conformance itself is C01 (the ADU wraps the library's own PDU). Quick: one shape per class; thorough: all shapes. Binary-framer frames containing delimiter bytes and multi-word diagnostic responses on RTU are listed known findings.",
+    note="computeCRC appears inside framer harnesses as an uninterpreted step function folded over the data (so CONFIRMED holds for any checksum; K1 ties the real one to CRC-16/Modbus); computeLRC as its closed form (K2). PDU conformance itself is C01 (the ADU wraps the library's own PDU). Quick: one shape per class; thorough: all shapes. Binary-framer frames containing delimiter bytes and multi-word diagnostic responses on RTU are listed known findings. The two maximum-size RTU frames (125 / 123 registers) are in the quick tier.",
     technique=TECH)
 CHECKS["C04"] = dict(cat="model_checking", ref="DESIGN.md 4/C04",
     text="One symbolic step request-bytes -> ServerDecoder.decode -> execute -> datastore from an arbitrary table state (symbolic block start, length, contents; zero-mode on/off; holding/input tables shared or separate) is compared with a reference register-file model: response PDU and the full post-state of all four tables, for FC 1-6, 15, 16, 22, 23 with all body bytes symbolic. z3 decides each path; histories of any length follow by induction over states of this shape (paper argument).",
-    note="Bounds: addressed table 1..4 cells (thorough 1..6), FC15/16/23 with 1-2 data bytes/registers (thorough 3), other three tables fixed decoys. The reference model (spec/regfile.py) is the trusted reading of the spec. Bitwise AND/OR are modelled by per-bit Boolean expansion.",
+    note="Bounds: addressed table 1..4 cells (thorough 1..6), FC15/16/23 with 1-2 data bytes/registers (thorough 3), other three tables fixed decoys. The reference model (spec/regfile.py) is the trusted reading of the spec. Bitwise AND/OR are modelled by per-bit Boolean expansion. samelist.*: four blocks built by the real constructor from one list object stay four stores.",
     technique=TECH)
 CHECKS["C05"] = dict(cat="model_checking", ref="DESIGN.md 4/C05",
     text="The same step harness restricted to requests the reference model rejects: exception code in the spec's decision order (03 before 02), fc|0x80, all four tables unchanged; quantity limits decided over the full 16-bit quantity and address range against 2100-cell tables; every unassigned function code 1..127 answered with exception 01.",
@@ -33,11 +33,11 @@ CHECKS["C14"] = dict(cat="model_checking", ref="DESIGN.md 4/C14",
     technique=TECH)
 CHECKS["C19"] = dict(cat="model_checking", ref="DESIGN.md 4/C19",
     text="BinaryPayloadBuilder/Decoder are executed symbolically for every value type and sequences of up to three typed values under all four byte-order x word-order combinations: the register image equals the conventional layout (reference word/byte shuffle) and the decoder returns every value, through raw bytes and through to_registers/fromRegisters, for EVERY bit pattern of each value (integers over their full ranges; floats as bit patterns, a superset of all floats).",
-    note="IEEE conversion itself is CPython's struct (trusted): floats travel as bit patterns through the two struct calls that touch them. Strings are 3 bytes, bit groups 8 bits, sequences are the type combinations enumerated per obligation. struct.pack of an integer the harness composed from bytes is modelled by the identity to_bytes(from_bytes(b)) == b. text.*: add_string with a str of arbitrary code points (UTF-8 image).",
+    note="IEEE conversion itself is CPython's struct (trusted): floats travel as bit patterns through the two struct calls that touch them. Strings are 3 bytes, bit groups 8 bits, sequences are the type combinations enumerated per obligation. struct.pack of an integer the harness composed from bytes is modelled by the identity to_bytes(from_bytes(b)) == b. text.*: add_string with a str of arbitrary code points (UTF-8 image). bits.alias: decode_bits result modified in place, same byte decoded again.",
     technique=TECH)
 CHECKS["C20"] = dict(cat="model_checking", ref="DESIGN.md 4/C20",
     text="The whole Read Device Identification request/response chain (ServerDecoder -> execute -> DeviceInformationFactory -> encode with _encode_object space accounting) is executed symbolically over identity objects of SYMBOLIC length 0..245 and symbolic content: every PDU <= 253 bytes, chain terminates, union of pages = exactly the configured non-empty objects of the category from the start id, each once; response bytes equal header + claimed objects for concrete length vectors incl. boundary lengths; individual access returns exactly the object.",
-    note="Populated object-id sets are concrete per obligation (dictionary keys). With symbolic lengths paging is decided on lengths and header fields (byte equality would make the engine enumerate lengths); byte-level consistency is decided for the concrete length vectors listed. A 245-byte object (fits no PDU) is a listed known finding. Client-side decoding is C01's obligation. bytes.*: every page is also decoded by ClientDecoder and compared with the page sent.",
+    note="Populated object-id sets are concrete per obligation (dictionary keys). With symbolic lengths paging is decided on lengths and header fields (byte equality would make the engine enumerate lengths); byte-level consistency is decided for the concrete length vectors listed. A 245-byte object (fits no PDU) is a listed known finding. Client-side decoding is C01's obligation. bytes.*: every page is also decoded by ClientDecoder and compared with the page sent. config.history: identity configured twice through its public interface.",
     technique=TECH)
 CHECKS["C06"] = dict(cat="model_checking", ref="DESIGN.md 4/C06",
     text="The receive paths of the TCP, RTU, ASCII and binary framers are executed symbolically on streams of 1-2 valid frames (all field values, unit ids, transaction ids symbolic) under EVERY schedule with 0, 1 or 2 cuts (thorough: 3 cuts and single-byte delivery; empty reads included): callbacks equal the stream's messages in order and nothing escapes processIncomingPacket. z3 decides each path for all frame contents.",
@@ -45,7 +45,7 @@ CHECKS["C06"] = dict(cat="model_checking", ref="DESIGN.md 4/C06",
     technique=TECH)
 CHECKS["C07"] = dict(cat="model_checking", ref="DESIGN.md 4/C07",
     text="For ANY buffer of the stated length handed to a fresh receiver (all bytes symbolic except the function-code position), every delivered message is the decoder's result for a PDU that a frame in the buffer carries with a valid integrity check (CRC low byte first / LRC over valid hex / consistent MBAP length) and with the delivered unit/transaction ids - decided by z3 over all buffers, which subsumes every corruption, truncation and extension of valid frames. SMT lemmas K5 prove that CRC-16/Modbus detects all 1-3 bit errors and all bursts <= 16 bits and that the LRC detects every single-character change, for frames of the stated size.",
-    note="Buffers: RTU 8-9, binary 10, TCP 9/12, ASCII 11/17 bytes in quick (more lengths and function codes in thorough); one read. CRC/LRC appear as contracts (K1/K2 tie them to the standards). The decoder is observed through a recording wrapper. Two listed known findings: TCP headerless error frames, ASCII lenient LRC field.",
+    note="Buffers: RTU 8-9, binary 10, TCP 9/12, ASCII 11/17 bytes in quick (more lengths and function codes in thorough); one read. CRC/LRC appear as contracts (K1/K2 tie them to the standards). The decoder is observed through a recording wrapper. Two listed known findings: TCP headerless error frames, ASCII lenient LRC field. just.<framing>-client.*: framer built with a client object, as the synchronous clients build it; a fixed-format data-access PDU must have its own length.",
     technique=TECH)
 CHECKS["C11"] = dict(cat="model_checking", ref="DESIGN.md 4/C11",
     text="Liveness reduced to bounded safety and decided symbolically: from the state an arbitrary garbage chunk (arbitrary bytes, bad-checksum frame, foreign-unit frame, truncated frame, lone delimiters; contents symbolic) leaves in an RTU/ASCII/binary receiver, four valid frames are read one (or two) per read; the 3rd and 4th are delivered as the frame's own message and the backlog stays <= garbage + one frame.",
@@ -53,7 +53,7 @@ CHECKS["C11"] = dict(cat="model_checking", ref="DESIGN.md 4/C11",
     technique=TECH)
 CHECKS["C09"] = dict(cat="model_checking", ref="DESIGN.md 4/C09",
     text="The handler loops, execute() and send() of all seven server front-ends (sync TCP/serial/UDP, asyncio TCP/UDP, Twisted TCP/UDP) are executed symbolically on 1-2 well-formed requests with symbolic transaction ids, unit id, addresses, values and initial registers: the bytes written back are exactly one reference response frame per request, in order (reference register-file model wrapped in the reference ADU with the request's ids); nothing is written for broadcast, ignored absent units and listen-only responses; a raising datastore is answered with exception 04.",
-    note="Front-ends are driven through fake sockets/transports and a queue-only event loop (no selector, threads or reactor) - these fakes are the environment. Requests are FC 6 / FC 3 / FC 8-04 on a 4-register table; reads are whole frames. Twisted UDP answering listen-only requests is a listed known finding. silent.*.broadcast-fail: a broadcast whose execution raises is still unanswered.",
+    note="Front-ends are driven through fake sockets/transports and a queue-only event loop (no selector, threads or reactor) - these fakes are the environment. Requests are FC 6 / FC 3 / FC 8-04 on a 4-register table; reads are whole frames. Twisted UDP answering listen-only requests is a listed known finding. silent.*.broadcast-fail: a broadcast whose execution raises is still unanswered. subfn.*: diagnostic sub-functions and MEI through the front-ends (response carries the request's function code); nodata-second.*: a bare-function-code request that is not the first frame.",
     technique=TECH)
 CHECKS["C10"] = dict(cat="model_checking", ref="DESIGN.md 4/C10",
     text="Every front-end is executed symbolically with two hosted unit contexts whose ids are SYMBOLIC (distinct, 0..247) and a write request addressed to a symbolic unit id 0..255, for each combination of ignore_missing_slaves / broadcast_enable: exactly the addressed unit changes as the reference model prescribes; broadcast is applied once to both units with no response; an absent unit changes nothing and is answered not at all or with a gateway exception; single mode routes every id to the one context.",
@@ -61,7 +61,7 @@ CHECKS["C10"] = dict(cat="model_checking", ref="DESIGN.md 4/C10",
     technique=TECH)
 CHECKS["C12"] = dict(cat="model_checking", ref="DESIGN.md 4/C12",
     text="ANY byte string of the stated length (all bytes symbolic but the function-code position) is sent to each front-end in one or two reads: no exception leaves the front-end (Twisted: reactor contract), the datastore afterwards is unchanged or exactly what a checksum-valid write frame contained in the input prescribes (C07's recogniser + register-file model), and a probe request on a fresh connection is answered correctly.",
-    note="Inputs: TCP 12 bytes, RTU 8, ASCII 17 in quick (more lengths/function codes in thorough). CRC as uninterpreted contract on both receiver and recogniser side. The ASCII lenient-LRC region is a listed known finding. framed.*.fc<k>: every function code of the server decoder table with arbitrary bodies (dictionary-dispatched bytes fixed per obligation); truncated RTU requests; a path that does not return is ended by a CPU budget and reported only if the concrete replay does not return either.",
+    note="Inputs: TCP 12 bytes, RTU 8, ASCII 17 in quick (more lengths/function codes in thorough). CRC as uninterpreted contract on both receiver and recogniser side. The ASCII lenient-LRC region is a listed known finding. framed.*.fc<k>: every function code of the server decoder table with arbitrary bodies (dictionary-dispatched bytes fixed per obligation); truncated RTU requests; a path that does not return is ended by a CPU budget and reported only if the concrete replay does not return either. sameport.*: on the one-connection serial front-end later requests on the same port are answered.",
     technique=TECH)
 CHECKS["C17"] = dict(cat="model_checking", ref="DESIGN.md 4/C17",
     text="Differential symbolic model checking: the synchronous, asyncio and Twisted front-ends (stream trio and datagram trio) are run on the SAME symbolic request bytes (1-2 requests of a given function code, every body byte, ids and the initial coils/registers symbolic; valid and invalid requests alike) on copies of the same datastore: outputs byte-identical, final datastores identical, same decision to give the connection up. Interleaving obligation: two connections with reads a1, b, a2 (a split ASCII frame) get exactly the output they get alone - framing state is per connection.",
@@ -73,7 +73,7 @@ CHECKS["C08"] = dict(cat="model_checking", ref="DESIGN.md 4/C08",
     technique=TECH)
 CHECKS["C13"] = dict(cat="model_checking", ref="DESIGN.md 4/C13",
     text="The client transaction loop (retry loop, _transact error handling, framer reset, _recv) is executed symbolically with a SYMBOLIC choice of transport behaviour per attempt (full reply, exception reply, nothing, half a reply, symbolic garbage, other-unit frame, stale reply, OSError): the call returns an error object or a response without raising, transmits at most 1+retries times, and a following healthy transaction returns its own correct reply; the documented retry options are checked on two-attempt scripts; the TCP client's deadline loop terminates under a symbolic clock that advances at least timeout/4 per observation.",
-    note="Scripts of 1+retries attempts, retries 0..1 quick (0..2 thorough); scripted transport and clock are the environment; time.sleep no-op. RTU/binary: garbage and half frames assumed not checksum-valid under the uninterpreted CRC. Two listed known findings: exceptions escaping execute() on garbage (ASCII/binary), retry_on_empty alone never retries. peerclose.*: a connection the peer closed after k reply bytes (k symbolic) stays dead until the client closes it; a close after the header (k >= 8 on TCP) is the listed finding KF-client-keeps-dead-connection-after-truncated-reply. realtcp.*/realserial.*: the real ModbusTcpClient / ModbusSerialClient over a fake socket / port (garbage replies, stale bytes before a request). The known-finding carve for exceptions escaping execute() is by call site (framer.processIncomingPacket / decode_data).",
+    note="Scripts of 1+retries attempts, retries 0..1 quick (0..2 thorough); scripted transport and clock are the environment; time.sleep no-op. RTU/binary: garbage and half frames assumed not checksum-valid under the uninterpreted CRC. Two listed known findings: exceptions escaping execute() on garbage (ASCII/binary), retry_on_empty alone never retries. peerclose.*: a connection the peer closed after k reply bytes (k symbolic) stays dead until the client closes it; a close after the header (k >= 8 on TCP) is the listed finding KF-client-keeps-dead-connection-after-truncated-reply. realtcp.*/realserial.*: the real ModbusTcpClient / ModbusSerialClient over a fake socket / port (garbage replies, stale bytes before a request). The known-finding carve for exceptions escaping execute() is by call site (framer.processIncomingPacket / decode_data). realudp.late-reply: the real ModbusUdpClient over fake datagram sockets.",
     technique=TECH)
 CHECKS["C15"] = dict(cat="other", ref="DESIGN.md 4/C15",
     text="Thread schedules cannot be explored by this family of technique. The property is reduced to a lock-discipline premise that IS decided symbolically on the real code: under symbolic transport faults (incl. exceptions) every access to the shared transaction state (transport send/recv/connect/close, framer buffer, transaction-id counter, reply slots) happens while one and the same lock reachable from the client is owned, and no lock is owned after execute() returns or raises. Lock discipline + release on every exit implies serialisability of whole transactions (stated reduction); serial behaviour is C08/C13/C14.",
@@ -81,7 +81,7 @@ CHECKS["C15"] = dict(cat="other", ref="DESIGN.md 4/C15",
     technique="lock-discipline premise checked by bounded symbolic execution (CrossHair + z3) of the real transaction code; schedule quantifier by a stated reduction")
 CHECKS["C16"] = dict(cat="model_checking", ref="DESIGN.md 4/C16",
     text="The Twisted ModbusClientProtocol is executed symbolically from a SYMBOLIC transaction-id counter (wrap at 0xFFFF included): three outstanding requests get distinct 16-bit ids, every arrival order of the replies fires each deferred exactly once with its own reply, an unsolicited reply (symbolic foreign id) and a duplicate change nothing; connection loss at every point fails exactly the pending deferreds with ConnectionException and later requests fail likewise; an inductive step from an arbitrary pending set (symbolic ids) decides id reuse; the serial FIFO variant matches replies in order.",
-    note="Three outstanding requests, all 6 orders in thorough (3 in quick); pending map is a hash-free mapping under the solver; transport is a recording fake, one reply per dataReceived. Overwriting a still-pending request when the counter comes round is a listed known finding (carved by exactly that predicate).",
+    note="Three outstanding requests, all 6 orders in thorough (3 in quick); pending map is a hash-free mapping under the solver; transport is a recording fake, one reply per dataReceived. Overwriting a still-pending request when the counter comes round is a listed known finding (carved by exactly that predicate). lost.rtu.*: connection loss on the serial (FIFO) variant; fresh-protocol.rtu: a second default-built serial protocol object.",
     technique=TECH)
 NA_REASON = "check not built yet in this revision (work in progress; see DESIGN.md build order)"
 
